@@ -88,6 +88,9 @@ type Options struct {
 	// DidGenesis, when set, is installed as the did section of the genesis; the DID model is
 	// derived from it (entries are keyed by the genesis map key, whatever the document says).
 	DidGenesis json.RawMessage
+	// PnftGenesis, when set, is installed as the pnft section of the genesis; the PNFT model
+	// is derived from it (owner strings as spelled in the file, valid addresses or not).
+	PnftGenesis json.RawMessage
 	// Also enables the state-agreement oracles of other properties (used by C08/C09/C10/C19,
 	// whose statements quantify over "every AOL, DID and PNFT query").
 	Also map[string]bool
@@ -170,13 +173,16 @@ func New(opt Options) (*World, error) {
 		db = d
 	}
 	g := simnet.GenesisOptions{Accounts: accts, Previous: opt.Previous}
-	if opt.Mutate != nil || opt.AolGenesis != nil || opt.DidGenesis != nil {
+	if opt.Mutate != nil || opt.AolGenesis != nil || opt.DidGenesis != nil || opt.PnftGenesis != nil {
 		g.Mutate = func(_ func(interface{}) []byte, gs map[string]json.RawMessage) {
 			if opt.AolGenesis != nil {
 				gs["aol"] = opt.AolGenesis
 			}
 			if opt.DidGenesis != nil {
 				gs["did"] = opt.DidGenesis
+			}
+			if opt.PnftGenesis != nil {
+				gs["pnft"] = opt.PnftGenesis
 			}
 			if opt.Mutate != nil {
 				opt.Mutate(gs)
@@ -207,6 +213,12 @@ func New(opt Options) (*World, error) {
 			return nil, err
 		}
 		w.Label("did genesis with generated entries")
+	}
+	if opt.PnftGenesis != nil {
+		if err := w.PNFT.LoadGenesis(c.App.AppCodec(), opt.PnftGenesis); err != nil {
+			return nil, err
+		}
+		w.Label("pnft genesis with generated entries")
 	}
 	w.snap()
 	if opt.Twin {
@@ -765,6 +777,9 @@ func (w *World) WriteReplay(path string, extra map[string]interface{}) error {
 	}
 	if w.Opt.DidGenesis != nil {
 		doc["did_genesis"] = w.Opt.DidGenesis
+	}
+	if w.Opt.PnftGenesis != nil {
+		doc["pnft_genesis"] = w.Opt.PnftGenesis
 	}
 	for k, v := range extra {
 		doc[k] = v
